@@ -1404,7 +1404,8 @@ Definition wf_ext (e : option (bool * bytes * bytes)) : Prop :=
 Lemma pre_tpl_wf u : wf_head u -> Forall twf (pre_tpl u).
 Proof.
   intros (H1 & H2 & H3). unfold pre_tpl. destruct (string_of_N_inert (t_idx u)) as [Hd Hne].
-  repeat (apply Forall_cons || apply Forall_app || split); simpl; auto.
+  apply Forall_app; split; [repeat constructor; simpl; auto|].
+  apply Forall_app; split; [|repeat constructor].
   destruct (t_prev u); simpl; repeat constructor; auto.
 Qed.
 
@@ -1504,8 +1505,9 @@ Proof. reflexivity. Qed.
 Lemma encode_new_shape u h e :
   encode_ub u (Some h) e = c_nt (enc_pre u) h (quote :: enc_rest e).
 Proof.
-  unfold encode_ub, c_nt. simpl opt_tpl. unfold flat. simpl.
-  rewrite app_nil_r, <- app_assoc. reflexivity.
+  unfold encode_ub, c_nt. f_equal.
+  change (flat (opt_tpl (Some h))) with (quote :: h ++ [quote]).
+  rewrite <- app_comm_cons, <- app_assoc. reflexivity.
 Qed.
 
 (** The classification of every torn state of a commit's user-block write, for the blocks
@@ -1560,3 +1562,16 @@ Proof.
   destruct (committed_at_extends mfm rs C n) as (l & ->).
   pose proof (good_nonempty _ _ Hg). destruct C; [congruence | discriminate].
 Qed.
+
+(** Tactics for closed instances of the side conditions (used by the non-vacuity examples). *)
+Ltac tears_tac :=
+  unfold tears_ok; simpl;
+  repeat (apply Forall_cons;
+          [first [left; reflexivity | right; left; reflexivity | right; right; reflexivity]|]);
+  apply Forall_nil.
+Ltac parts_tac := simpl; repeat (apply Forall_cons; [discriminate|]); apply Forall_nil.
+Ltac round_ok_tac :=
+  unfold round_ok;
+  split; [simpl; first [solve [intros []] | solve [intros [H|[]]; discriminate]
+                       | solve [intros [H|[H|[]]]; discriminate]]|];
+  split; [tears_tac|]; split; [tears_tac|]; parts_tac.
